@@ -10,7 +10,7 @@ from ..callgraph import CallGraph
 from ..cfg import cfg_of
 from ..model import FunctionInfo, AnalysisError, dotted
 from ..report import Ctx
-from ..util import norm, fn_body_nodes, walk_local, kwarg
+from ..util import ordered_args, norm, fn_body_nodes, walk_local, kwarg
 from .. import pat
 from ..pat import Snips
 from .common import arg_permutation_rule, names_in, calls_named
@@ -297,7 +297,7 @@ def rule_initialiser(ctx: Ctx):
         dc = rows[0].node.body
         p = rows[0].positional_params[0]
         ok = isinstance(dc.value, ast.Call) and isinstance(dc.value.func, ast.Name) and dc.value.func.id == wrapper.name \
-            and [ast.unparse(a) for a in dc.value.args] == [p, ast.unparse(dc.key)]
+            and [ast.unparse(a) for a in ordered_args(dc.value)] == [p, ast.unparse(dc.key)]
         ctx.check(ok, "SIM-7", rows[0], dc, f"row initialiser calls the absorbing-aware `{wrapper.name}`", "",
                   f"rows are initialised with `{norm(dc.value)}`, bypassing the absorbing->0 wrapper `{wrapper.name}`")
         it = dc.generators[0].iter
@@ -353,7 +353,7 @@ def rule_policy_and_wiring(ctx: Ctx):
     if r and isinstance(r[0].value, ast.Call):
         qv, pl = kwarg(r[0].value, "q_values"), kwarg(r[0].value, "policy")
         ctx.check(qv is not None and qn is not None and ast.unparse(qv) == qn, "WIRE-1", t, r[0], "q_values is the trained table", "", "returned q_values is not the trained table")
-        ctx.check(pl is not None and qn is not None and ast.unparse(pl) == f"{t.self_name}._create_policy({tm}, {qn})", "WIRE-1", t, r[0], "policy built from the returned table", "", "returned policy is not built from the returned table")
+        ctx.check(pl is not None and qn is not None and S.m(f"{t.self_name}._create_policy({tm}, q)", pl, {"q": qn}) is not None, "WIRE-1", t, r[0], "policy built from the returned table", "", "returned policy is not built from the returned table")
     # double Q returns the mean over the union of keys
     dq = P.method("DoubleQLearning", "_training")
     dm = dq.positional_params[1]
